@@ -5,7 +5,9 @@ The public functions are traced *as they are* (no rewritten copies): the array i
 they use are given symbolic meaning by `GeoProxy`, a subclass of the shared ProxyNumpy
 that lives in this file (nothing in symtrace.py is changed):
 
-* np.atleast_1d(scalar).astype(float)  -> a length-1 symbolic array
+* np.atleast_1d(scalar) -> `Raw1`, a length-1 array in the caller's (unknown) dtype whose ONLY
+  supported use is `.astype(float)` -> a length-1 symbolic array of reals; arithmetic or a NumPy
+  function on an unconverted argument fails closed (integer wrap-around / reduced precision)
 * np.arctan2 / np.logical_and on arrays -> elementwise
 * np.ma.masked_where / .fill_value / .filled(), +, **, /, np.sqrt on masked arrays
   -> the `if` the idiom implements: an element is masked when the condition holds, or
@@ -122,17 +124,102 @@ class ProxyMa:
         return Masked(list(a), [bool(c) for c in conds])
 
 
+class Raw1:
+    """np.atleast_1d(<argument of the caller>): an array in the CALLER's dtype, which the trace does
+    not know (Python int / float, int8 .. uint64, float16 / float32 / float64, ...).  Arithmetic in
+    that dtype is not what the real-number model computes (integer powers and sums wrap around,
+    NumPy evaluates ufuncs on int8 / int16 / float16 / float32 input in reduced precision), so the
+    only thing that can be done with it is the conversion `.astype(float)`; every other use makes the
+    translator fail closed.  (Added after seeded change C20d, which dropped the conversion.)"""
+
+    MSG = ("is applied to an argument in the caller's dtype (np.atleast_1d without .astype(float)): "
+           "integer wrap-around / reduced-precision evaluation is not modelled")
+
+    def __init__(self, data):
+        self.__dict__["_data"] = list(data)
+
+    @property
+    def shape(self):
+        return (len(self._data),)
+
+    ndim = 1
+
+    def __len__(self):
+        return len(self._data)
+
+    def astype(self, dtype, *a, **k):
+        if (dtype is float or dtype is _np.float64) and not a and not k:
+            return _arr1(list(self._data))
+        raise TranslatorUnsupported(f"astype({dtype}) of an argument array")
+
+    def __getattr__(self, name):
+        raise TranslatorUnsupported(f"ndarray.{name} " + Raw1.MSG)
+
+    def _no(self, *a, **k):
+        raise TranslatorUnsupported("arithmetic / comparison / indexing " + Raw1.MSG)
+
+    __add__ = __radd__ = __sub__ = __rsub__ = __mul__ = __rmul__ = __truediv__ = __rtruediv__ = _no
+    __pow__ = __rpow__ = __neg__ = __pos__ = __abs__ = __matmul__ = __rmatmul__ = __floordiv__ = __mod__ = _no
+    __lt__ = __le__ = __gt__ = __ge__ = __eq__ = __ne__ = __getitem__ = __setitem__ = __iter__ = __bool__ = _no
+    __array_ufunc__ = None
+    __hash__ = None
+
+
+def _guard(*xs):
+    for x in xs:
+        if isinstance(x, Raw1):
+            raise TranslatorUnsupported("a NumPy function " + Raw1.MSG)
+
+
 class GeoProxy(ProxyNumpy):
     def __init__(self):
         super().__init__()
         self.ma = ProxyMa()
 
     def atleast_1d(self, x):
+        if isinstance(x, Raw1):
+            return x
         if isinstance(x, _np.ndarray):
-            return _arr1(x) if x.ndim >= 1 else _arr1(x.reshape(1))
-        return _arr1([lift(x)])
+            return Raw1(x.reshape(-1))
+        return Raw1([lift(x)])
+
+    # elementwise functions of the shared proxy: never on an unconverted argument
+    def abs(self, x):
+        _guard(x)
+        return super().abs(x)
+
+    def exp(self, x):
+        _guard(x)
+        return super().exp(x)
+
+    def cos(self, x):
+        _guard(x)
+        return super().cos(x)
+
+    def sin(self, x):
+        _guard(x)
+        return super().sin(x)
+
+    def tan(self, x):
+        _guard(x)
+        return super().tan(x)
+
+    def arccos(self, x):
+        _guard(x)
+        return super().arccos(x)
+
+    def arctan(self, x):
+        _guard(x)
+        return super().arctan(x)
+
+    def asarray(self, x, dtype=None):
+        _guard(x)
+        return super().asarray(x, dtype)
+
+    array = asarray
 
     def arctan2(self, y, x):
+        _guard(y, x)
         if isinstance(y, _np.ndarray) and isinstance(x, _np.ndarray) and y.shape == x.shape:
             out = _np.empty(y.shape, dtype=object).view(Arr1)
             o = out.reshape(-1)
@@ -142,6 +229,7 @@ class GeoProxy(ProxyNumpy):
         return super().arctan2(y, x)
 
     def logical_and(self, a, b):
+        _guard(a, b)
         a = _np.asarray(a, dtype=object).reshape(-1)
         b = _np.asarray(b, dtype=object).reshape(-1)
         out = _np.empty(len(a), dtype=object)
@@ -152,6 +240,7 @@ class GeoProxy(ProxyNumpy):
         return out
 
     def sqrt(self, x):
+        _guard(x)
         if isinstance(x, Masked):
             # numpy.ma.sqrt: domain x >= 0, masked (not evaluated) below 0
             data, mask = [], []
